@@ -57,6 +57,7 @@ def get(modname, *attrs):
 SKELETONS = {
     'streamFunc': ('dataflows.processors.stream', ['stream', 'func'],
                    {'write', 'close', 'rename', 'res_writer', 'flush', 'unlink', 'remove'}),
+    'streamResWriter': ('dataflows.processors.stream', ['stream', 'res_writer'], {'write'}),
     'fileDumperRows': ('dataflows.processors.dumpers.file_dumper', ['FileDumper', 'rows_processor'],
                        {'write_row', 'finalize_file', 'tell', 'hash_handler', 'close', 'flush', 'write_file_to_output', 'unlink',
                         'insert_hash_in_path', 'getsize'}),
